@@ -234,6 +234,12 @@ Definition k_zone (backward node : bool) (ops : list op) (key : Z) (o : cmpop) (
   | None => false
   end.
 
+(** C14-K4 through a range lookup: find_nodes_in_range prunes although the scan finds a node *)
+Definition k_range (backward : bool) (ops : list op) (key : Z) (lo hi : option value) (li hi_i : bool) : bool :=
+  let s := run (init backward) ops in
+  ps_range_class (nprops s) key lo hi li hi_i
+  && negb (zlist_eqb (zsortf (find_in_range s key lo hi li hi_i)) (zsortf (scan_in_range s key lo hi li hi_i))).
+
 Definition stats_eqb (a b : stats) : bool :=
   (s_nodes a =? s_nodes b) && (s_edges a =? s_edges b)
   && plist_eqb (psort (s_labels a)) (psort (s_labels b)) && plist_eqb (psort (s_etypes a)) (psort (s_etypes b)).
